@@ -1,5 +1,5 @@
 """Pool family: C12 (and the pool part of C08)."""
-import glob, json, os, time
+import glob, json, os, shutil, time
 from core import *
 import fam_batch
 
@@ -7,14 +7,19 @@ POOL_STATE_INVS = "TypeOK AtMostOnce WgExact PoolBound WaitBarrier RoundBarrier 
 
 # (Family, MaxW, MaxS, MaxPer, MaxRounds)
 PLAN = {
-    "C12": dict(mc_q=[("full", 2, 2, 2, 2), ("gated", 2, 2, 2, 1)], mc_t=[("full", 3, 2, 3, 2), ("gated", 2, 2, 2, 2), ("gated", 3, 2, 2, 1)],
-                gen_q=("small,big,mixed,barrier,latesubmit,full,paced", 25), gen_t=("small,big,mixed,barrier,latesubmit,full,paced", 500), cap_q=1500, cap_t=20000),
+    "C12": dict(mc_q=[("full", 2, 2, 2, 2), ("gated", 2, 2, 2, 1), ("early", 2, 2, 2, 1)],
+                mc_t=[("full", 3, 2, 3, 2), ("gated", 2, 2, 2, 2), ("gated", 3, 2, 2, 1), ("early", 3, 2, 3, 2)],
+                gen_q=("small,big,mixed,barrier,latesubmit,full,paced,earlyclose", 25), gen_t=("small,big,mixed,barrier,latesubmit,full,paced,earlyclose", 500), cap_q=1500, cap_t=20000),
     "C08": dict(mc_q=[("full", 2, 2, 2, 1), ("gated", 2, 1, 3, 1)], mc_t=[("full", 3, 2, 3, 1), ("gated", 3, 1, 3, 1)],
                 gen_q=("barrier,small", 40), gen_t=("barrier,small,mixed", 400), cap_q=600, cap_t=5000),
 }
 
 
 def mc_cfg(fam, w, s, per, rounds):
+    if fam == "early":
+        # Close without Wait: what still holds (at most once, exact WaitGroup, the tasks left behind are the queued ones)
+        return ("SPECIFICATION MCSpec\nCONSTANTS\n  Family = \"early\"\n  MaxW = %d\n  MaxS = %d\n  MaxPer = %d\n  MaxRounds = %d\n  DoExport = FALSE\n"
+                "VIEW NoHistView\nINVARIANTS TypeOK AtMostOnce WgExact PoolBound RoundBarrier EarlyCloseAccounting NoDeadlock\nCHECK_DEADLOCK FALSE\n" % (w, s, per, rounds))
     if fam == "full":
         # every interleaving; the history is kept out of the fingerprint, state invariants only
         return ("SPECIFICATION MCSpec\nCONSTANTS\n  Family = \"full\"\n  MaxW = %d\n  MaxS = %d\n  MaxPer = %d\n  MaxRounds = %d\n  DoExport = FALSE\n"
@@ -67,7 +72,7 @@ def collect(pid, tier, seed, d):
     # code -> spec: small recorded histories must be explained by FlytPool (send and pickup inferred as silent steps)
     def small(r):
         c = r["cfg"]
-        return (c["sched"] != "latesubmit" and c["S"] * c["per"] * c["rounds"] <= 8 and max(c["W"], 1) <= 3
+        return (r.get("fam") != "poolearly" and c["sched"] != "latesubmit" and c["S"] * c["per"] * c["rounds"] <= 8 and max(c["W"], 1) <= 3
                 and not any(e["ev"] in ("hang", "stuck", "race", "panic") for e in r["h"]))
     tv_n, tv_ok, tv_states, tv_trans = trace_validate(d, "TracePool", hist, keep=small, shards=4, limit=600 if tier == "quick" else 6000)
     states += tv_states; transitions += tv_trans
@@ -75,6 +80,14 @@ def collect(pid, tier, seed, d):
     mc_info.append({"spec": "TracePool (trace validation of recorded histories)", "histories": tv_n, "explained": len(tv_ok),
                     "distinct_states": tv_states, "states_generated": tv_trans})
     log("trace validation against FlytPool: %d of %d histories explained" % (len(tv_ok), tv_n))
+    # Close without Wait is outside what C12 promises: those histories get no verdict, but the specification (CloseEarly)
+    # must explain them too
+    shutil.copy(hist, hist + ".early")
+    ev_n, ev_ok, ev_states, ev_trans = trace_validate(d, "TracePool", hist + ".early", keep=lambda r: r.get("fam") == "poolearly", shards=2, limit=2000)
+    states += ev_states; transitions += ev_trans
+    unexplained += ev_n - len(ev_ok)
+    mc_info.append({"spec": "TracePool (histories of a Close without Wait; conformance only, no verdict)", "histories": ev_n, "explained": len(ev_ok)})
+    log("early-close histories explained by FlytPool (no verdict): %d of %d" % (len(ev_ok), ev_n))
     violations, known_hits = [], {}
     races = glob.glob(racelog + ".*")
     if races and pid == "C12":
